@@ -50,6 +50,7 @@ FIXED = [
     ("C06", "477d477", "OrderedTaskGroup([a, o, b]) with the optional o unscheduled no longer ordered a and b (differs from the same group with o deleted)"),
     ("C18", "3a3b797", "ScheduleNTasksInTimeIntervals(max 1) over one task and ResourceUnavailable with a repeated interval raised 'assertion ... already added'"),
     ("C05", "3a3b797", "a problem containing ScheduleNTasksInTimeIntervals(kind=max, n=1, one task) could not be built although valid schedules exist"),
+    ("C16", "fbb4feb", "export_to_smt2 of a solver in debug mode: tracked assertions exported as 'identifier => assertion', so the file of an infeasible problem was satisfiable"),
     ("C18", "939afbe", "ResourceNonDelay / TasksContiguous / IndicatorResourceIdle over a single task raised 'assertion And already added'"),
 ]
 
